@@ -94,6 +94,20 @@ def run(payload):
         if bad:
             failures.append({"class": "simplify", "input": {"model": txt, "options": {"eliminable_variable_expression": "_.*", "expand_mx": True}}, "observed": bad,
                              "expected": "der() of an eliminated variable replaced by the time derivative of its defining expression"})
+    # coefficients that differ only beyond the sixth significant digit, through the expand_vectors + expand_mx rebuild of the equations
+    long_consts = ("model F7 Real x; Real y; Real z; Real s; equation der(s) = x; 1000001 * x - y = 1000003; 1000002 * x - z = 1000004; "
+                   "y + z = 2 * x + 1999990; end F7;")
+    for opts in ({"expand_vectors": True, "expand_mx": True}, {"expand_vectors": True, "expand_mx": True, "detect_aliases": True}):
+        n += 1
+        try:
+            bad, status = judge(long_consts, "F7", opts, rng)
+        except BaseException as e:  # noqa
+            bad, status = "%s: %s" % (type(e).__name__, str(e)[:120]), "fail"
+        if status in ("ok", "fail"):
+            nontrivial += 1
+        if bad:
+            failures.append({"class": "simplify", "input": {"model": long_consts, "options": dict(opts)}, "observed": bad,
+                             "expected": "solution set preserved; recorded eliminations hold in every original solution"})
     models = fixed + [(S.gen_model(rng, i)[0], "M%d" % i) for i in range(n_models)]
     for txt, name in models:
         for opts in S.option_sets(tier):
